@@ -66,6 +66,7 @@ class CodeModel:
         for ctx, ent in self.entry.items():
             merged_entry[mkey(ctx)] = ent
         self.entry = merged_entry
+        guards = {}
         for ctx0, recs in self.graphs.items():
             ctx = mkey(ctx0)
             adj = self.edges.setdefault(ctx, {})
@@ -76,6 +77,10 @@ class CodeModel:
                 if lab is None:
                     if ("eps", None, dst) not in out:
                         out.append(("eps", None, dst))
+                elif lab[0] == "guard":
+                    g = guards.setdefault((ctx, v, dst), [set(), False])
+                    g[0] |= set(lab[1])
+                    g[1] = g[1] or lab[2]
                 elif lab[0] == "bi":
                     _, name, kind, la, cpfn = lab
                     if name == "token":
@@ -111,6 +116,15 @@ class CodeModel:
                                     item = ("pword", (k, self.fix_word(wo[8], cctx, ctx0)), dst)
                                     if item not in out:
                                         out.append(item)
+        self._add_guards(guards)
+
+    def _add_guards(self, guards):
+        for (ctx, v, dst), (kinds, refining) in guards.items():
+            out = self.edges[ctx].setdefault(v, [])
+            if refining:
+                out.append(("guard", frozenset(kinds - self.ai.trivia), dst))
+            elif ("eps", None, dst) not in out:
+                out.append(("eps", None, dst))
 
     def fix_word(self, word, cctx, caller_ctx):
         """attach checkpoint identities: a cp taken through a helper belongs to the calling grammar function;
@@ -179,165 +193,186 @@ class CodeModel:
             while st:
                 f = st.pop()
                 for g in calls.get(f, ()):
-                    if g not in reach:
+                    if g not in reach and g != cpfn:
                         reach.add(g)
                         st.append(g)
-            # ... that can reach a function containing the open_at
-            s = set(x for x in fns if x in reach or x == cpfn)
+            # ... that can reach a function containing the open_at without entering cpfn again (a new activation
+            # of cpfn takes its own checkpoint)
+            s = set(x for x in fns if x in reach)
             changed = True
             while changed:
                 changed = False
                 for f in reach:
-                    if f not in s and calls.get(f, set()) & s:
+                    if f not in s and (calls.get(f, set()) - {cpfn}) & s:
                         s.add(f)
                         changed = True
             res[cpfn] = s - {cpfn}
         return res
 
 
-def code_nfa(model, kind, cut):
-    """NFA of the error-free region languages of node `kind` over (token kinds ∪ cut kinds).
-    Configuration: (ctx, vertex, rest-of-word, edge dst, return stack, flat depth, skip depth, pending wrap, cur)
-      flat  = open non-cut nodes inside the region (flattened), skip = depth inside a cut child (nothing observable),
-      pending = a checkpoint guessed to become a wrapper node, cur = the current token kind the path has committed to
-      (None = unconstrained: a token was just consumed)."""
+def code_nfa(model, kind, variant=None):
+    """NFA of the error-free region language of node `kind` over (token kinds ∪ node kinds): what the parser
+    puts directly inside a `kind` node, a child node being one symbol (its kind) when it covers at least one token
+    and nothing when it covers none.
+    Configuration: (ctx, vertex, rest-of-word, edge dst, return stack, skip, pending wrap, cur)
+      skip    = None at the top level of the region, else (depth, child kind, saw a token) inside a child node
+      pending = a checkpoint guessed to become a wrapper node (start_node_at), or the region's own checkpoint
+      cur     = the current token kind the path has committed to (None = unconstrained: a token was just consumed)."""
     at_kinds = model.open_at_kinds()
     has_at = model.fns_with_open_at()
     delta = {}
     ACC = ("ACC",)
-    accepts = {ACC}
+    ACC_EOF = ("ACC", "eof")
+    accepts = {ACC, ACC_EOF}
+    eof_close = []       # (child symbol, configuration right after a child node closed with the input at its end)
+    vid = model.variant_id
     starts = set()
     problems = []
     trivia = model.ai.trivia
 
     def succ(cfg):
-        ctx, v, rest, dst, rstack, flat, skip, pending, cur = cfg
+        if cfg[0] == "A":
+            return [(("^", cfg[1][7]), cfg[1])]
+        ctx, v, rest, dst, rstack, skip, pending, cur = cfg
         out = []
         if rest:
             sym = rest[0]
             nrest = rest[1:]
 
             def go(**kw):
-                c = dict(flat=flat, skip=skip, pending=pending, cur=cur)
+                c = dict(skip=skip, pending=pending, cur=cur)
                 c.update(kw)
-                return (ctx, v, nrest, dst, rstack, c["flat"], c["skip"], c["pending"], c["cur"])
+                return (ctx, v, nrest, dst, rstack, c["skip"], c["pending"], c["cur"])
             if sym[0] == "t":
                 kinds = sym[1] if cur is None else (sym[1] & {cur})
-                if skip > 0:
+                if skip is not None:
                     if kinds:
-                        out.append((None, go(cur=None)))
+                        out.append((None, go(cur=None, skip=(skip[0], skip[1], True))))
                 else:
                     for k in kinds:
                         out.append((k, go(cur=None)))
             elif sym[0] == "open":
-                k = sym[1]
-                if skip > 0:
-                    out.append((None, go(skip=skip + 1)))
-                elif k in cut:
-                    out.append((k, go(skip=1)))
+                if skip is not None:
+                    out.append((None, go(skip=(skip[0] + 1, skip[1], skip[2]))))
                 else:
-                    out.append((None, go(flat=flat + 1)))
+                    out.append(((("^", cur) if cur is not None else None), go(skip=(1, (sym[1], vid(sym[1], ctx)), False))))
             elif sym[0] == "close":
-                if skip > 0:
-                    if skip == 1 and pending is not None and pending[2] == "skip":
-                        pass        # the guessed wrapper would close before its start_node_at was seen: dead
+                if skip is not None:
+                    if skip[0] == 1:
+                        if pending is not None and pending[2] == "child":
+                            pass        # the guessed wrapper would close before its start_node_at was seen: dead
+                        else:
+                            n = go(skip=None)
+                            # back at the top level: what the child learnt about the next token is an assertion
+                            # of this region too
+                            out.append((skip[1] if skip[2] else None, ("A", n) if cur is not None else n))
+                            if cur == "Eof":
+                                eof_close.append((skip[1], norm(n)))
                     else:
-                        out.append((None, go(skip=skip - 1)))
-                elif flat > 0:
-                    if pending is not None and pending[2] == "flat" and pending[3] == flat:
-                        pass
-                    else:
-                        out.append((None, go(flat=flat - 1)))
+                        out.append((None, go(skip=(skip[0] - 1, skip[1], skip[2]))))
                 else:
-                    if pending is None and not rstack:
-                        out.append((None, ACC))
-                    elif rstack:
-                        problems.append("region of %s closes inside an inlined call" % kind)
+                    if pending is None:
+                        out.append((None, ACC_EOF if cur == "Eof" else ACC))
             elif sym[0] == "cp":
                 cpfn = sym[1]
                 out.append((None, go()))
-                if pending is None and skip == 0:
+                if pending is None and skip is None:
                     for k in sorted(at_kinds.get(cpfn, ())):
-                        if k in cut:
-                            out.append((k, go(skip=1, pending=(cpfn, k, "skip", 0))))
-                        else:
-                            out.append((None, go(flat=flat + 1, pending=(cpfn, k, "flat", flat + 1))))
+                        out.append(((("^", cur) if cur is not None else None),
+                                    go(skip=(1, (k, vid(k, ctx)), False), pending=(cpfn, k, "child"))))
             elif sym[0] == "open_at":
                 k, cpfn = sym[1], sym[2]
                 if pending is not None and pending[0] == cpfn and pending[1] == k:
-                    out.append((None, go(pending=None)))
-                elif skip > 0 and (pending is None or pending[0] != cpfn):
-                    out.append((None, go(skip=skip + 1)))
+                    if (pending[2] == "self") == (skip is None):
+                        out.append((None, go(pending=None)))
+                elif skip is not None and (pending is None or pending[0] != cpfn):
+                    out.append((None, go(skip=(skip[0] + 1, skip[1], skip[2]))))
             return out
         if isinstance(v, tuple) and v and v[0] == "RET":
             if rstack:
                 (rctx, rdst, roc), rs2 = rstack[-1], rstack[:-1]
                 if v[1] == roc:
-                    out.append((None, (rctx, rdst, (), None, rs2, flat, skip, pending, cur)))
+                    out.append((None, (rctx, rdst, (), None, rs2, skip, pending, cur)))
             return out
         for (k, payload, d) in model.edges.get(ctx, {}).get(v, ()):
             if k == "eps":
-                out.append((None, (ctx, d, (), None, rstack, flat, skip, pending, cur)))
+                out.append((None, (ctx, d, (), None, rstack, skip, pending, cur)))
+            elif k == "guard":
+                if cur is not None:
+                    if cur in payload:
+                        out.append((None, (ctx, d, (), None, rstack, skip, pending, cur)))
+                else:
+                    for kk in payload:
+                        out.append(((("^", kk) if skip is None else None), (ctx, d, (), None, rstack, skip, pending, kk)))
             elif k == "word":
-                out.append((None, (ctx, v, payload, d, rstack, flat, skip, pending, cur)))
+                out.append((None, (ctx, v, payload, d, rstack, skip, pending, cur)))
             elif k == "pword":
                 kk, word = payload
                 if cur is not None and cur != kk:
                     continue
                 if kk in trivia:
                     continue      # the parser never looks at a trivia token after the initial skip()
-                out.append((None, (ctx, v, word, d, rstack, flat, skip, pending, kk)))
+                # case split on the actual next token; recorded at the top level of the region as ('^', k)
+                commit = ("^", kk) if (cur is None and skip is None) else None
+                out.append((commit, (ctx, v, word, d, rstack, skip, pending, kk)))
             elif k == "call":
                 cctx, oc = payload
-                inline = skip == 0 or (pending is not None and cctx[0] in has_at.get(pending[0], ()))
+                inline = skip is None or (pending is not None and cctx[0] in has_at.get(pending[0], ()))
                 if inline:
                     if len(rstack) > 24:
-                        problems.append("call depth exceeded while exploring %s (recursion not through a cut symbol?)" % kind)
+                        problems.append("call depth exceeded while exploring %s" % kind)
                         continue
                     ent = model.entry.get(cctx)
                     if ent is None:
                         problems.append("no recorded graph for %s" % (cctx[0],))
                         continue
-                    out.append((None, (cctx, ent, (), None, rstack + ((ctx, d, oc),), flat, skip, pending, cur)))
+                    out.append((None, (cctx, ent, (), None, rstack + ((ctx, d, oc),), skip, pending, cur)))
                 else:
                     # skipped callee: if it consumed input the current token is unknown afterwards
-                    out.append((None, (ctx, d, (), None, rstack, flat, skip, pending, None if oc[1] else cur)))
+                    prog = bool(oc[1])
+                    out.append((None, (ctx, d, (), None, rstack, (skip[0], skip[1], skip[2] or prog), pending,
+                                       None if prog else cur)))
         return out
 
     def norm(cfg):
-        if cfg == ACC:
+        if cfg[0] == "ACC":
             return cfg
-        ctx, v, rest, dst, rstack, flat, skip, pending, cur = cfg
+        if cfg[0] == "A":
+            return ("A", norm(cfg[1]))
+        ctx, v, rest, dst, rstack, skip, pending, cur = cfg
         if not rest and dst is not None:
-            return (ctx, dst, (), None, rstack, flat, skip, pending, cur)
+            return (ctx, dst, (), None, rstack, skip, pending, cur)
         return cfg
 
     init = []
-    for (ctx, v, ei, pos, via) in model.open_sites(kind):
-        k, payload, dst = model.edges[ctx][v][ei]
-        word = payload if k == "word" else payload[1]
-        cur0 = None if k == "word" else payload[0]
-        init.append((ctx, v, word[pos + 1:], dst, (), 0, 0, None, cur0))
     for ctx, adj in model.edges.items():
+        if ctx[2][0]:
+            continue         # is_after_error set: not reachable on an error-free parse
+        if variant is not None and (ctx[0], ctx[3]) != variant:
+            continue
         for v, outs in adj.items():
             for (k, payload, dst) in outs:
                 if k in ("word", "pword"):
                     word = payload if k == "word" else payload[1]
                     cur0 = None if k == "word" else payload[0]
                     for pos, sym in enumerate(word):
+                        if sym[0] == "open" and sym[1] == kind:
+                            init.append((ctx, v, word[pos + 1:], dst, (), None, None, cur0))
                         if sym[0] == "cp" and kind in at_kinds.get(sym[1], ()):
-                            init.append((ctx, v, word[pos + 1:], dst, (), 0, 0, (sym[1], kind, "self", 0), cur0))
+                            init.append((ctx, v, word[pos + 1:], dst, (), None, (sym[1], kind, "self"), cur0))
     seen = set()
     dq = deque()
+    START = ("START",)
+    starts.add(START)
     for c in init:
         c = norm(c)
-        starts.add(c)
+        delta.setdefault(START, []).append(((("^", c[7]) if c[7] is not None else None), c))
         if c not in seen:
             seen.add(c)
             dq.append(c)
     while dq:
         c = dq.popleft()
-        if c == ACC:
+        if c[0] == "ACC":
             continue
         if len(seen) > 400000:
             problems.append("state explosion exploring %s" % kind)
@@ -348,7 +383,22 @@ def code_nfa(model, kind, cut):
             if n not in seen:
                 seen.add(n)
                 dq.append(n)
-    return starts, delta, accepts, sorted(set(problems))
+    # children after whose end-of-input close the region itself can still end without an error
+    rev = {}
+    for a, outs in delta.items():
+        for (sym, b) in outs:
+            if sym is None:
+                rev.setdefault(b, []).append((sym, a))
+    can = {ACC_EOF}
+    st = [ACC_EOF]
+    while st:
+        x = st.pop()
+        for (sym, a) in rev.get(x, ()):
+            if a not in can:
+                can.add(a)
+                st.append(a)
+    eof_children = {c for (c, n) in eof_close if n in can}
+    return starts, delta, accepts, sorted(set(problems)), eof_children
 
 
 # ------------------------------------------------------------------------------------------- doc side
